@@ -88,6 +88,13 @@ def clipped_paraboloid(epd=20.0, rmax=8.0, wavelengths=(0.55,)):
     return o
 
 
+def uv_projection(wavelengths=None):
+    """Bundled finite-conjugate sample whose exit pupil lies behind the image (negative signed
+    pupil magnification): the working F-number there differs most from naive formulas."""
+    from optiland.samples.lithography import UVProjectionLens
+    return UVProjectionLens()
+
+
 def pv_waves(optic, field, wl, n=24):
     from optiland.wavefront import Wavefront
     w = G.quiet(Wavefront, optic, [field], [wl], n, "uniform")
@@ -217,14 +224,14 @@ def reals(arr):
 
 
 def quantities(optic, wl):
-    """The paraxial accessors the working F-number is made of, recorded as data."""
+    """What the working F-number is made of, recorded as data (C04's business): n' |u'| of the
+    paraxial marginal ray in image space; the paraxial F-number only serves explanations."""
     px = optic.paraxial
     finite = not optic.object_surface.is_infinite
-    q = {"lam": dy(float(wl)), "F": dy(float(px.FNO())), "finite": bool(finite),
-         "XPD": dy(0), "EPD": dy(0), "mag": dy(0)}
-    if finite:
-        q.update(XPD=dy(float(px.XPD())), EPD=dy(float(px.EPD())), mag=dy(float(px.magnification())))
-    return q
+    ya, ua = px.marginal_ray()
+    n_img = float(np.ravel(optic.image_surface.material_pre.n(optic.primary_wavelength))[0])
+    u_img = abs(float(np.ravel(ua)[-2]))          # slope of the ray arriving at the image surface
+    return {"lam": dy(float(wl)), "F": dy(float(px.FNO())), "finite": bool(finite), "nu": dy(n_img * u_img)}
 
 
 # ------------------------------------------------------------- recorders ----
